@@ -21,7 +21,7 @@ from ..report import AnalysisError, Ob
 from ..term import Resolver, pmatch, find_all, abstract, anf_of
 
 REL = "inference/pdf/kde.py"
-FLOORS = {"order-restored": 2, "sample-stays-sorted": 8, "every-group-stored": 2, "float-arithmetic": 1, "region-provenance": 2, "kernel-form": 2, "region-tables": 3, "truncation-bound": 1, "units": 3, "units-result-types": 3}
+FLOORS = {"order-restored": 2, "sample-stays-sorted": 8, "every-group-stored": 2, "float-arithmetic": 1, "region-provenance": 2, "kernel-form": 2, "region-tables": 3, "truncation-bound": 1, "units": 3, "units-result-types": 3, "region-lookup": 2, "table-domain": 1}
 
 EXPECTED = {"__call__": "Lin(-1,0)", "cdf": "Lin(0,0)", "attr:h": "Lin(1,0)", "attr:mode": "Lin(1,1)"}
 
@@ -245,7 +245,78 @@ def _every_group_stored(prog, ci, fn):
                      f"gap of the sample wider than the cut-off", REL, loop.lineno, slots={"skips": len(conds), "residual": shown})
 
 
+def _table_domains(prog):
+    """The window bounds, the cdf offsets and the evaluators must speak about ONE array: the bounds of a region's window are
+    positions in the array the evaluators slice with them, and an offset `searchsorted(A, lower cut) / B.size` is the fraction of
+    entries below the window only if it counts entries of the array whose size it is divided by."""
+    ci = prog.cls("GaussianKDE")
+    init = ci.methods["__init__"]
+    rz = Resolver(init, prog, ci.module, ci, inline_self=True)
+    terms = {}
+    for st in ast.walk(init):
+        if isinstance(st, ast.Assign) and len(st.targets) == 1 and isinstance(st.targets[0], ast.Attribute) and U(st.targets[0].value) == "self":
+            terms.setdefault(st.targets[0].attr, []).append(rz.term(st.value, st))
+
+    def searched(t):
+        return {U(n.args[0]) for n in ast.walk(t) if isinstance(n, ast.Call) and U(n.func).split(".")[-1] == "searchsorted" and n.args
+                and not isinstance(n.func, ast.Attribute)} | \
+               {U(n.func.value) for n in ast.walk(t) if isinstance(n, ast.Call) and isinstance(n.func, ast.Attribute) and n.func.attr == "searchsorted"
+                and U(n.func.value) not in ("np", "numpy")}
+    out = []
+    sl, off = terms.get("slices", []), terms.get("cdf_offsets", [])
+    if len(sl) != 1 or len(off) != 1:
+        return out
+    a1 = searched(sl[0])
+    why = []
+    # the offsets: a count of entries below, divided by a size
+    o = off[0]
+    if isinstance(o, ast.BinOp) and isinstance(o.op, ast.Div):
+        a3 = searched(o.left)
+        den = o.right
+        a4 = None
+        if isinstance(den, ast.Attribute) and den.attr == "size":
+            a4 = U(den.value)
+        elif isinstance(den, ast.Call) and U(den.func) == "len" and den.args:
+            a4 = U(den.args[0])
+        elif isinstance(den, ast.Subscript) and isinstance(den.value, ast.Attribute) and den.value.attr == "shape":
+            a4 = U(den.value.value)
+        if len(a3) == 1 and a4 is not None and isinstance(o.left, ast.Call) and U(o.left.func).split(".")[-1] == "searchsorted":
+            if next(iter(a3)) != a4:
+                why.append(f"the cdf offsets count the entries of `{next(iter(a3))[:80]}` below each window but divide by the number of "
+                           f"entries of `{a4[:80]}`")
+            if a1 and a3 != a1:
+                why.append(f"the cdf offsets are positions in `{next(iter(a3))[:80]}` while the windows are positions in `{sorted(a1)[0][:80]}`")
+    # the evaluators: which array is sliced with the windows
+    for mname in ("__call__", "cdf"):
+        fm = ci.methods.get(mname)
+        if fm is None:
+            continue
+        rm = Resolver(fm, prog, ci.module, ci)
+        for n in ast.walk(fm):
+            if isinstance(n, ast.Subscript) and any(isinstance(x, ast.Subscript) and U(x.value) == "self.slices" for x in ast.walk(n.slice)) \
+                    and isinstance(n.value, ast.Attribute) and U(n.value.value) == "self":
+                vals = terms.get(n.value.attr, [])
+                if len(vals) == 1 and len(a1) == 1 and U(vals[0]) != next(iter(a1)):
+                    why.append(f"{mname} slices `{U(n.value)}` = `{U(vals[0])[:80]}` with windows that are positions in `{next(iter(a1))[:80]}`")
+    out.append(struct_ob("table-domain", qual(ci, init), not why,
+                         "window bounds, cdf offsets and evaluators must index / count / normalise by the same array: " + "; ".join(why),
+                         REL, init.lineno, slots={"searched": sorted(a1)}, tier="F"))
+    return out
+
+
 def run(prog, tier):
+    dom = _table_domains(prog)
+    try:
+        obs, floors, meta = _run_main(prog, tier)
+    except AnalysisError:
+        # a definite violation beats an analysis that cannot proceed
+        if any(not o.ok for o in dom):
+            return dom, {}, {"explanation": "table domains disagree; remaining rules not evaluated"}
+        raise
+    return dom + obs, floors, meta
+
+
+def _run_main(prog, tier):
     obs = []
     ci = prog.cls("GaussianKDE")
     init = ci.methods["__init__"]
@@ -432,6 +503,8 @@ def run(prog, tier):
         elif any(isinstance(n, ast.Subscript) and U(n.value) in ("self.slices", "self.cdf_offsets") for n in ast.walk(fm)):
             obs.append(struct_ob("region-provenance", qual(ci, fm), True, "", REL, fm.lineno))
 
+    obs.extend(_region_lookup(prog))
+
     # ---------------------------------------------------------------- truncation bound
     anf.reset()
     ex = Expander(prog, ci.module, ci)
@@ -473,6 +546,8 @@ def run(prog, tier):
     obs.extend(dtype_hazard_obligations(prog, "float-arithmetic", ['inference/pdf/kde.py']))
     from .common import call_order_obligations
     obs.extend(call_order_obligations(prog, "arguments-in-order", ['inference/pdf/kde.py']))
+    from .common import identity_memo_obligations
+    obs.extend(identity_memo_obligations(prog, "result-keyed-on-values", ['inference/pdf/kde.py']))
 
     for mname in ("__call__", "cdf"):
         obs.append(_every_group_stored(prog, ci, ci.methods[mname]))
@@ -497,3 +572,144 @@ def run(prog, tier):
         "assumptions": ["numpy searchsorted / linspace semantics; scipy erf"],
     }
     return obs, FLOORS, meta
+
+
+# ---------------------------------------------------------------------------------------------- the tree look-up itself
+def _region_lookup(prog):
+    """The look-up every region number comes from (region-provenance): a query point gets the index of the edge interval that
+    contains it, and points outside the covered range get the END regions - a region number outside 0 .. n_regions - 1 would
+    silently wrap (Python's negative indexing) to the sample window and cdf offset of the opposite end.
+    Table form: regions[searchsorted(edges, x)] with regions[k] = clamp(k - 1, 0, edges.size - 2).
+    Any other way a returned region number is computed must be clamped from below and from above."""
+    out = []
+    bt = prog.cls("BinaryTree")
+    init, rg = bt.methods.get("__init__"), bt.methods.get("region_groups")
+    if init is None or rg is None:
+        raise AnalysisError("anchor vanished: BinaryTree.__init__ / region_groups")
+    sn = init.args.args[0].arg
+    rb = Resolver(init, prog, bt.module, bt, inline_self=True)
+    # ---- the table
+    base, over, other = None, {}, []
+    for st in ast.walk(init):
+        if isinstance(st, ast.Assign) and len(st.targets) == 1:
+            t = st.targets[0]
+            if U(t) == f"{sn}.regions":
+                base = rb.term(st.value, st)
+            elif isinstance(t, ast.Subscript) and U(t.value) == f"{sn}.regions":
+                k = U(t.slice)
+                if k in ("0", "-1") and k not in over:
+                    over[k] = rb.term(st.value, st)
+                else:
+                    other.append(U(st))
+        elif isinstance(st, ast.AugAssign) and U(st.target).startswith(f"{sn}.regions"):
+            other.append(U(st))
+    why = []
+    E = None
+    if base is None:
+        why.append("no `regions` table is built")
+    else:
+        m = pmatch(base, "arange(-1, _E.size)") or pmatch(base, "arange(-1, len(_E))")
+        m2 = pmatch(base, "clip(arange(-1, _E.size), 0, _E.size - 2)")
+        if m2 is not None:
+            E = m2["_E"]
+            if over or other:
+                why.append(f"extra writes into the clamped table: {sorted(over)} {other}")
+        elif m is not None:
+            E = m["_E"]
+            lo, hi = over.get("0"), over.get("-1")
+            if not (isinstance(lo, ast.Constant) and lo.value == 0):
+                why.append(f"regions[0] (points below the first edge) is `{U(lo) if lo is not None else 'left at -1'}`, not 0")
+            okhi = False
+            if hi is not None:
+                try:
+                    ha, _ = abstract(hi, [(f"{E}.size", "N"), (f"len({E})", "N")])
+                    okhi = anf_of(ha).eq(R.sym("N") - 2)
+                except Unsupported:
+                    okhi = False
+            if not okhi:
+                why.append(f"regions[-1] (points above the last edge) is `{U(hi) if hi is not None else 'left at edges.size - 1'}`, not edges.size - 2")
+            if other:
+                why.append(f"further writes into the table: {other}")
+        else:
+            why.append(f"the table is `{U(base)[:120]}`, not arange(-1, edges.size) with both ends overridden")
+    ed = [rb.term(st.value, st) for st in ast.walk(init) if isinstance(st, ast.Assign) and U(st.targets[0]) == f"{sn}.edges"]
+    if E is not None and not (len(ed) == 1 and U(ed[0]) == E):
+        why.append(f"the table is sized from `{E}`, which is not the edge array `{U(ed[0]) if ed else None}`")
+    out.append(struct_ob("region-lookup", qual(bt, init) + "[table]", not why,
+                         "regions[k] must be clamp(k - 1, 0, n_regions - 1) for k = searchsorted(edges, x) in 0 .. edges.size: " + "; ".join(why),
+                         REL, init.lineno))
+
+    # ---- every returned region number
+    def region_exprs(fn, rz, depth=0):
+        """[(expression of the region numbers, resolver, function)] over the return statements"""
+        res = []
+        for r in rz.returns():
+            t = rz.term(r.value, r)
+            if isinstance(t, ast.Call) and U(t.func) == "unique_index_groups" and t.args:
+                res.append((t.args[0], r))
+            elif isinstance(t, ast.Tuple) and t.elts:
+                res.append((t.elts[0], r))
+            else:
+                res.append((t, r))
+        return res
+
+    def indep(e, var):
+        return not any(isinstance(n, ast.Name) and n.id in var for n in ast.walk(e))
+
+    def bounded(e, var, depth=0):
+        """(bounded below, bounded above) for a scalar region number computed from the query value(s) named in `var`"""
+        if indep(e, var):
+            return True, True
+        if isinstance(e, ast.Subscript) and U(e.value) == "self.regions":
+            return True, True
+        if isinstance(e, ast.IfExp):
+            a, b = bounded(e.body, var, depth), bounded(e.orelse, var, depth)
+            return a[0] and b[0], a[1] and b[1]
+        if isinstance(e, ast.Call):
+            f = U(e.func).split(".")[-1]
+            if f in ("int", "floor", "ceil", "round", "array", "asarray", "intp", "int64", "astype") and (e.args or isinstance(e.func, ast.Attribute)):
+                return bounded(e.args[0] if e.args and f != "astype" else e.func.value, var, depth)
+            if f in ("min", "minimum") and len(e.args) >= 2:
+                bs = [bounded(a, var, depth) for a in e.args]
+                return all(b[0] for b in bs), any(b[1] for b in bs)
+            if f in ("max", "maximum") and len(e.args) >= 2:
+                bs = [bounded(a, var, depth) for a in e.args]
+                return any(b[0] for b in bs), all(b[1] for b in bs)
+            if f == "clip" and len(e.args) >= 3 and all(not (isinstance(a, ast.Constant) and a.value is None) for a in e.args[1:3]):
+                return True, True
+            if isinstance(e.func, ast.Attribute) and U(e.func.value) == "self" and e.func.attr in bt.methods and depth < 3:
+                m = bt.methods[e.func.attr]
+                ps = [a.arg for a in m.args.args[1:]]
+                v2 = {p_ for p_, a in zip(ps, e.args) if not indep(a, var)}
+                rz2 = Resolver(m, prog, bt.module, bt)
+                bs = [bounded(rz2.term(r.value, r), v2, depth + 1) for r in rz2.returns()]
+                return (all(b[0] for b in bs), all(b[1] for b in bs)) if bs else (False, False)
+        return False, False
+
+    rz = Resolver(rg, prog, bt.module, bt)
+    xp = rg.args.args[1].arg
+    n_paths = 0
+    for e, r in region_exprs(rg, rz):
+        n_paths += 1
+        var = {xp}
+        el = e
+        if isinstance(el, ast.Call) and U(el.func).split(".")[-1] in ("array", "asarray") and el.args:
+            el = el.args[0]
+        if isinstance(el, (ast.ListComp, ast.GeneratorExp)) and len(el.generators) == 1:
+            g = el.generators[0]
+            if not indep(g.iter, var):
+                var = var | {n.id for n in ast.walk(g.target) if isinstance(n, ast.Name)}
+            el = el.elt
+        table = pmatch(el, f"self.regions[searchsorted(self.edges, {xp})]") is not None \
+            or pmatch(el, f"self.regions[self.edges.searchsorted({xp})]") is not None
+        lo, hi = (True, True) if table else bounded(el, var)
+        why = ""
+        if not (lo and hi):
+            side = "below" if not lo and hi else "above" if lo and not hi else "on either side"
+            why = (f"`{U(el)[:140]}` (return at line {r.lineno}) is computed from the query point and is not clamped {side}: a point "
+                   f"outside the covered range gets a region number outside 0 .. n_regions - 1, which indexes the tables of the opposite end")
+        out.append(struct_ob("region-lookup", qual(bt, rg) + f"[return@{n_paths}]", lo and hi, why, REL, r.lineno,
+                             slots={"form": "table" if table else "arithmetic", "expr": U(el)[:120]}, tier="F"))
+    if n_paths == 0:
+        raise AnalysisError("anchor vanished: BinaryTree.region_groups returns nothing")
+    return out
